@@ -412,11 +412,67 @@ mod cpr {
     }
 }
 
+// ---------------------------------------------------------------------------------------------------------
+// C15 (bounded stand-in for typed accessors outside the contracts: HashMap / Vec / Version / Relations valued):
+// what a setter writes its getter reads back, under the documented field name
+mod acc {
+    use super::{Fail, Rng};
+    use std::collections::HashMap;
+    use std::str::FromStr;
+    const WORDS: &[&str] = &["a", "foo", "lib-x", "1.0", "x=y", "DEB_BUILD_OPTIONS", "parallel=4", "\"quoted=1\"", "LANG", "C.UTF-8"];
+    pub fn run() -> Result<usize, Fail> {
+        use debian_control::lossless::buildinfo::Buildinfo;
+        let mut r = Rng(0xC2B2AE3D27D4EB4F);
+        let mut n = 0;
+        for _ in 0..2000 {
+            n += 1;
+            let mut b = Buildinfo::new();
+            // Environment: KEY=value lines; values may contain '='
+            let ne = 1 + r.below(3);
+            let mut env: HashMap<String, String> = HashMap::new();
+            for i in 0..ne { env.insert(format!("K{}{}", i, r.pick(&["", "_X", "OPT"])), r.pick(WORDS).to_string()); }
+            b.set_environment(env.clone());
+            let shown = format!("set_environment({:?})", env);
+            if b.environment() != Some(env.clone()) { return Err(Fail { prop: "C15".into(), input: shown, what: "Buildinfo::environment() does not return what set_environment() wrote".into(), expected: format!("{:?}", env), got: format!("{:?}", b.environment()) }); }
+            // the documented reading of the field: KEY up to the first '=' on each line
+            let mut keys: Vec<&String> = env.keys().collect(); keys.sort();
+            let text = format!("Format: 1.0\nEnvironment:\n{}", keys.iter().map(|k| format!(" {}={}\n", k, env[*k])).collect::<String>());
+            let reread = Buildinfo::from_str(&text).ok().and_then(|x| x.environment());
+            if reread != Some(env.clone()) { return Err(Fail { prop: "C15".into(), input: text, what: "Buildinfo::environment() does not read the Environment field as KEY=value lines".into(), expected: format!("{:?}", env), got: format!("{:?}", reread) }); }
+            // Binary / Build-Tainted-By: space separated lists
+            let nb = 1 + r.below(3);
+            let bins: Vec<String> = (0..nb).map(|_| r.pick(&["foo", "libfoo1", "foo-dev", "bar"]).to_string()).collect();
+            b.set_binaries(bins.clone());
+            if b.binaries() != Some(bins.clone()) { return Err(Fail { prop: "C15".into(), input: format!("set_binaries({:?})", bins), what: "Buildinfo::binaries() does not return what set_binaries() wrote".into(), expected: format!("{:?}", bins), got: format!("{:?}", b.binaries()) }); }
+            let text = format!("Binary: {}\n", bins.join(" "));
+            let reread = Buildinfo::from_str(&text).ok().and_then(|x| x.binaries());
+            if reread != Some(bins.clone()) { return Err(Fail { prop: "C15".into(), input: text, what: "Buildinfo::binaries() does not read the Binary field".into(), expected: format!("{:?}", bins), got: format!("{:?}", reread) }); }
+            b.set_build_tainted_by(bins.clone());
+            if b.build_tainted_by() != Some(bins.clone()) { return Err(Fail { prop: "C15".into(), input: format!("set_build_tainted_by({:?})", bins), what: "Buildinfo::build_tainted_by() does not return what its setter wrote".into(), expected: format!("{:?}", bins), got: format!("{:?}", b.build_tainted_by()) }); }
+            let text = format!("Build-Tainted-By: {}\n", bins.join(" "));
+            let reread = Buildinfo::from_str(&text).ok().and_then(|x| x.build_tainted_by());
+            if reread != Some(bins.clone()) { return Err(Fail { prop: "C15".into(), input: text, what: "Buildinfo::build_tainted_by() does not read the Build-Tainted-By field".into(), expected: format!("{:?}", bins), got: format!("{:?}", reread) }); }
+            // Version
+            let vs = *r.pick(&["1.0-1", "2:1.0~rc1", "0.9"]);
+            let v: debversion::Version = vs.parse().unwrap();
+            b.set_version(v.clone());
+            if b.version() != Some(v.clone()) { return Err(Fail { prop: "C15".into(), input: format!("set_version({})", vs), what: "Buildinfo::version() does not return what set_version() wrote".into(), expected: format!("{:?}", v), got: format!("{:?}", b.version()) }); }
+            let text = format!("Version: {}\n", vs);
+            let reread = Buildinfo::from_str(&text).ok().and_then(|x| x.version());
+            if reread != Some(v.clone()) { return Err(Fail { prop: "C15".into(), input: text, what: "Buildinfo::version() does not read the Version field".into(), expected: format!("{:?}", v), got: format!("{:?}", reread) }); }
+        }
+        Ok(n)
+    }
+}
+
 const N_DOCS: usize = 4000;
 fn main() {
     let args: Vec<String> = std::env::args().collect();
     if args.len() < 2 { eprintln!("usage: vwit <C03|C04|C06|C08>"); std::process::exit(3); }
     let prop = args[1].as_str();
+    if prop == "C15" {
+        match acc::run() { Ok(n) => { eprintln!("vwit C15: no failing input among {} Buildinfo records", n); return; } Err(f) => f.print_and_exit() }
+    }
     if prop == "C12" {
         match sat::run() { Ok(n) => { eprintln!("vwit C12: no failing input among {} field / installed-set pairs", n); return; } Err(f) => f.print_and_exit() }
     }
